@@ -188,6 +188,23 @@ def run(lines, out, args):
         try:
             if op in ("reset", "resetfixed"):
                 reset(f[1] == "1")
+                # super(C, ob) where `ob` is itself a CLASS and C is in the MRO of its metaclass: what the classes after C in
+                # type(ob).__mro__ implement (checked once per history, on fresh classes; the history's own objects are instances)
+                from zope.interface import classImplements as _ci, providedBy as _pb, implementedBy as _ib
+                _IA = InterfaceClass("IMetaA%d" % serial[0], (Interface,), __module__="zi.gen")
+                _IB = InterfaceClass("IMetaB%d" % serial[0], (Interface,), __module__="zi.gen")
+                _M0 = type("Meta0", (type,), {})
+                _MX = type("MetaMix", (type,), {})
+                _M = type("Meta", (_M0, _MX), {})
+                _ci(_M0, _IA)
+                _ci(_MX, _IB)
+                _K = _M("K", (), {})
+                for _c, _want in ((_M, {_IA, _IB, Interface}), (_M0, {_IB, Interface})):
+                    _s = super(_c, _K)
+                    for _fn in (_pb, _ib):
+                        _gotset = set(_fn(_s).flattened())
+                        if _gotset != _want:
+                            raise AssertionError("META-SUPER %s(super(%s, K)) = %s" % (_fn.__name__, _c.__name__, sorted(i.__name__ for i in _gotset)))
             elif op == "iface":
                 bs = [int(x) for x in f[2].split()]
                 st["ifs"][int(f[1])] = InterfaceClass("I%d_%s" % (serial[0], f[1]), tuple(st["ifs"][b] for b in bs) or (Interface,), __module__="zi.gen")
